@@ -95,11 +95,28 @@ Theorem C11_order_check_spec : forall s0 o order,
   valid_from s0 o [] order.
 Proof. intros s0 o order. apply valid_fromb_spec. Qed.
 
+(** Known finding "wc-resolves-to-root": a workspace's working-copy commit has a Rewritten (or
+    Divergent) record whose full resolution starts with the root commit; update_wc_commits then
+    asks edit(workspace, root), which fails, and the failure becomes a panic. Witness (the model
+    predicts the panic; the harness replays it on the implementation): A = new([root]);
+    edit(w1, A); commit; rewrite A -> A'; abandon A'; rebase_descendants(). The records are in
+    the domain and the case is inside the class [known_wc_root]. *)
+Definition wc_root_ops : list op :=
+  [ONew [0] 1 false; OEdit 1 1; OCommit; ORewrite 1 None 2; OAbandon 2;
+   ORebase (mk_opts [] 0 false false [])].
+Theorem C11_wc_root_witness :
+  fst (run init_state wc_root_ops []) = Panic /\
+  in_domain (model_case wc_root_ops) = true /\
+  okb (model_case wc_root_ops) = false /\
+  known_wc_root (model_case wc_root_ops) = true.
+Proof. vm_compute. auto. Qed.
+
 (** The full statement for the model: for every operation sequence ending in a rebase whose
     records are in the domain, the model's own result satisfies every
     clause of the checker. *)
 Definition C11_full : Prop :=
-  forall ops, in_domain (model_case ops) = true -> okb (model_case ops) = true.
+  forall ops, in_domain (model_case ops) = true -> known_wc_root (model_case ops) = false ->
+    okb (model_case ops) = true.
 
 Example C11_nonvacuous :
   let c := model_case
@@ -114,4 +131,5 @@ Print Assumptions C11_new_parents_complete.
 Print Assumptions C11_no_orphans_checker_spec.
 Print Assumptions C11_no_orphans_old_refuted.
 Print Assumptions C11_order_check_spec.
+Print Assumptions C11_wc_root_witness.
 Print Assumptions C11_no_orphans_loop.
